@@ -234,7 +234,7 @@ def witnessSameMtime : List Ev :=
 
 def witnessInit : State := mkInit 10 1 5 none none
 
-theorem witnessInit_initF : InitF witnessInit :=
+theorem C18_witnessInit_initF : InitF witnessInit :=
   mkInit_initF 10 1 5 none none (by simp) (by simp)
 
 /-- It does NOT hold: the load of process 1 starts and ends while v3 is current and returns
@@ -243,7 +243,7 @@ theorem C18_fresh_counterexample : ¬ C18_fresh_full := by
   intro h
   have hr : ((run witnessInit witnessSameMtime).procs 1).pc = .done (some ⟨2, 7, 2, 11, 11, 3, 3⟩) := by
     decide
-  have := (h witnessInit witnessInit_initF witnessSameMtime 1 _ hr).1
+  have := (h witnessInit C18_witnessInit_initF witnessSameMtime 1 _ hr).1
   exact absurd this (by decide)
 
 /-- the witness violates exactly the hypothesis of `C18_fresh_partial` -/
